@@ -5,18 +5,21 @@ channels and a harness server set whose initial load is released by the script.
 Script: {'kind': 'heap'|'aperture', 'min_size', 'max_size', 'min_load': [n, d], 'max_load': [n, d],
          'slow_open': bool, 'initial': [ep...], 'ops': [...], 'seed': int}
 script ops:  ['open'] ['snap'] ['loaded'] ['join', ep] ['leave', ep] ['get'] ['getd'] ['expire', k] ['put', k] ['chan', nid, st]
-             ['opened', nid, ok] ['jitter'] ['tick', ms]
-`snap` (the moment the provider takes the snapshot it will return from GetServers) and `tick` (virtual time
-passes) are harness-only; all others become model operations
+             ['opened', nid, ok] ['jitter'] ['tick', ms] ['back', ms]
+`snap` (the moment the provider takes the snapshot it will return from GetServers), `tick` (virtual time
+passes) and `back` (the wall clock that `scales.varz` reads — `time.time()` inside `MonoClock` — is stepped
+BACKWARDS by ms milliseconds: an NTP step, a VM resume; the gevent loop's own clock stays monotone) are
+harness-only; all others become model operations
 
     open | loaded (eps in AddServer order) E | join ep E | leave ep E | get E | getd E | expire k | put r j E | chan nid st
-    | opened nid T/F E | jitter E          with E = (choices…) ((wn wd an ad)…)
+    | opened nid T/F E | jitter E          with E = (choices…) ((wn wd an ad tn td)…)
 
-where `choices` are the endpoints `random.choice` returned inside `_TryExpandAperture` and each 4-tuple is the
-decay weight and the value returned by the real `Ema.Update` (exact rationals of the floats) for one
-`_AdjustAperture` call, all recorded from the run, in call order."""
+where `choices` are the endpoints `random.choice` returned inside `_TryExpandAperture` and each 6-tuple is the
+decay weight, the value returned by the real `Ema.Update` and the wall-clock reading `time.time()` returned inside
+`MonoClock.Sample()` (seconds since the reading `MonoClock.__init__` took; exact rationals of the floats, the
+difference taken exactly) for one `_AdjustAperture` call, all recorded from the run, in call order.  The model has
+its own `MonoClock` (Model/Ema.lean): from the readings it predicts the time delta each `Ema.Update` saw."""
 from fractions import Fraction
-import math
 
 from lib import vfmt
 
@@ -26,6 +29,41 @@ NEAR = 1e-9
 def frac(x):
     f = Fraction(x)
     return [f.numerator, f.denominator]
+
+
+class WallClock(object):
+    """Stands for the `time` module inside scales.varz: the loop's (monotone) virtual clock plus an offset the
+    script can move both ways.  Every reading is logged."""
+
+    def __init__(self, real, loop):
+        self._real, self._loop = real, loop
+        self.offset = 0.0
+        self.reads = []
+
+    def time(self):
+        v = self._loop.now() + self.offset
+        self.reads.append(v)
+        return v
+
+    def __getattr__(self, name):
+        return getattr(self._real, name)
+
+
+class LoggingMath(object):
+    """Stands for the `math` module inside scales.varz: `exp` results are logged (the decay weight `Ema.Update`
+    really used)."""
+
+    def __init__(self, real):
+        self._real = real
+        self.exps = []
+
+    def exp(self, x):
+        v = self._real.exp(x)
+        self.exps.append(v)
+        return v
+
+    def __getattr__(self, name):
+        return getattr(self._real, name)
 
 
 # --------------------------------------------------------------------------- generation
@@ -196,6 +234,8 @@ def gen_script(rng, tier, focus):
     p_member = rng.choice([0.05, 0.15, 0.3]) if focus == 5 else rng.choice([0.0, 0.03, 0.08])
     p_chan = rng.choice([0.0, 0.05, 0.15])
     p_tick = rng.choice([0.0, 0.1, 0.3]) if kind == 'aperture' else 0.0
+    # the wall clock steps backwards now and then (never in the first rounds of a script: drawn after everything
+    # else so that the scripts of earlier rounds keep their shape)
     p_jit = rng.choice([0.0, 0.02, 0.06]) if kind == 'aperture' else 0.0
     p_opened = 0.25 if slow else 0.0
     target = rng.choice([0, 1, 3, 6, 12])       # outstanding level the traffic hovers around
@@ -232,9 +272,28 @@ def gen_script(rng, tier, focus):
                 ops.append(['put', g])
                 if rng.random() < 0.03:
                     ops.append(['put', g])
-    return {'kind': kind, 'min_size': min_size, 'max_size': max_size, 'min_load': min_load,
-            'max_load': max_load, 'slow_open': slow, 'initial': initial, 'ops': ops,
-            'auto_open': rng.random() < 0.65, 'seed': rng.randrange(1 << 30)}
+    script = {'kind': kind, 'min_size': min_size, 'max_size': max_size, 'min_load': min_load,
+              'max_load': max_load, 'slow_open': slow, 'initial': initial, 'ops': ops,
+              'auto_open': rng.random() < 0.65, 'seed': rng.randrange(1 << 30)}
+    if kind == 'aperture':
+        add_clock_steps(script)
+    return script
+
+
+def add_clock_steps(script):
+    """Half of the aperture scripts: the wall clock steps backwards one to four times somewhere after the initial
+    load (1 ms … 30 s), with more time passing at other places.  Drawn from a generator of its own (derived from the
+    script's seed) and inserted afterwards, so the rest of the script is what it was without."""
+    import random as _random
+    aux = _random.Random(script['seed'] ^ 0x5C06F)
+    if aux.random() < 0.5:
+        return
+    ops = script['ops']
+    first = next(i for i, o in enumerate(ops) if o[0] == 'loaded') + 1
+    for _ in range(aux.choice([1, 1, 2, 4])):
+        ops.insert(aux.randrange(first, len(ops) + 1), ['back', aux.choice([1, 10, 100, 1000, 3000, 30000])])
+        if aux.random() < 0.6:
+            ops.insert(aux.randrange(first, len(ops) + 1), ['tick', aux.choice([1, 10, 100, 1000, 3000, 10000])])
 
 
 def shrink(script):
@@ -280,6 +339,24 @@ def vfmt_items(items):
 
 
 def run_script(script, comp):
+    """the wall clock `scales.varz` reads (`time.time()` in MonoClock.__init__/Sample) is the harness's for the
+    duration of the script: the loop's virtual clock plus an offset that `back` operations decrease"""
+    import time as _time
+    import rt
+    import scales.varz as varzmod
+    real = varzmod.time._real if isinstance(varzmod.time, WallClock) else varzmod.time
+    real_math = varzmod.math._real if isinstance(varzmod.math, LoggingMath) else varzmod.math
+    wall = WallClock(real, rt.loop)
+    varzmod.time = wall
+    varzmod.math = LoggingMath(real_math)
+    try:
+        return _run_script(script, comp, wall, varzmod.math)
+    finally:
+        varzmod.time = real
+        varzmod.math = real_math
+
+
+def _run_script(script, comp, wall, vmath):
     import random as _random
     import gevent
     from gevent.event import Event
@@ -452,20 +529,24 @@ def run_script(script, comp):
     sink.Node = TNode
     adj_in, adj_rec = [], []
     near = [False]
+    clock_tags = set()
     if aperture:
         sink._ScheduleNextJitter = lambda: None        # timer queue is not part of this slice
+        t_created = Fraction(sink._time._last)         # the reading MonoClock.__init__ took
 
         class LoggingEma(Ema):
+            """the real Ema.Update, with what it was given and what it held before on record"""
             def Update(self, ts, sample):
                 first = self._time == -1
-                prev_t = self._time
+                prev_t, prev_v = self._time, self.value
+                del vmath.exps[:]
                 v = Ema.Update(self, ts, sample)
                 if first:
-                    w = 0.0
+                    w, dt, prev = 0.0, Fraction(0), None
                 else:
-                    delta = ts - prev_t
-                    w = 0 if self._window == 0 else math.exp(-float(delta) / self._window)
-                self.last = (w, v)
+                    w = vmath.exps[-1] if vmath.exps else 0.0     # the weight it used (no exp: window 0, weight 0)
+                    dt, prev = Fraction(ts) - Fraction(prev_t), frac(prev_v)
+                self.last = (w, v, dt, prev, int(sample))
                 return v
 
         sink._ema = LoggingEma(5)
@@ -476,15 +557,22 @@ def run_script(script, comp):
 
         def adjust(amount):
             before = (sink._size, len(sink._idle_endpoints), len(sink._pending_endpoints), healthy())
+            held = sink._time._last
+            del wall.reads[:]
             orig_adjust(amount)
-            w, v = sink._ema.last
-            adj_in.append(frac(w) + frac(v))
+            w, v, dt, prev, sample = sink._ema.last
+            # what time.time() returned inside MonoClock.Sample() (no reading: the clock was not consulted)
+            reading = wall.reads[0] if wall.reads else held
+            if reading < held:
+                clock_tags.add('clock-behind-at-sample')
+            adj_in.append(frac(w) + frac(v) + frac(Fraction(reading) - t_created))
             if before[0] > 0:
                 load = v / before[0]
                 for b in (sink._min_load, sink._max_load):
                     if load != b and abs(load - b) < NEAR:
                         near[0] = True
-            adj_rec.append(list(before) + [frac(v), sink._size, len(sink._idle_endpoints), True])
+            adj_rec.append(list(before) + [frac(v), sink._size, len(sink._idle_endpoints), True,
+                                           frac(dt), frac(w), prev, sample])
 
         sink._AdjustAperture = adjust
 
@@ -611,6 +699,10 @@ def run_script(script, comp):
         if kind == 'tick':
             rt.advance(op[1] / 1000.0)
             tags.add('tick')
+            continue
+        if kind == 'back':
+            wall.offset -= op[1] / 1000.0
+            tags.add('clock-back')
             continue
         if kind == 'snap':
             if ss.snapshot is None:
@@ -767,6 +859,7 @@ def run_script(script, comp):
     if sink._downq is not None:
         tags.add('downlist')
     tags.add('kind-' + script['kind'])
+    tags.update(clock_tags)
     if slow:
         tags.add('slow-open')
     tags.add('members%d' % min(len(sink._servers), 9))
